@@ -1158,6 +1158,10 @@ func (o OnConflict) Children() []Node {
 			children = append(children, &update)
 		}
 	}
+	if o.Action.Where != nil {
+		// DO UPDATE ... WHERE condition
+		children = append(children, o.Action.Where)
+	}
 	return children
 }
 
